@@ -109,7 +109,7 @@ func zzIndex(pool HostPool, h *UpstreamHost) int {
 
 func zzMaxPool() int {
 	if verifrt.Tier() > 0 {
-		return 8
+		return 6 // (8 did not finish the availability harness within an hour)
 	}
 	return 5
 }
